@@ -65,7 +65,7 @@ def plan(tier):
                    cfg=dict(depth=1, permdiv=1, gamma='all', relabel='all', qrot=False)),
               dict(family='sign', n=4, values=S5, graphs=800, per_task=2, weight=8,
                    cfg=dict(depth=1, permdiv=1, gamma='rot', relabel='rot', qrot=True)),
-              dict(family='dsign', n=3, values=S5, graphs=2000, per_task=20, weight=1,
+              dict(family='dsign', n=3, values=S5, graphs=1000, per_task=10, weight=2,
                    cfg=dict(depth=2, permdiv=1, gamma='all', relabel='rot'))]
         rnd = [dict(family=f, count=40, tasks=12, nmin=5, nmax=10, selfloop_every=4) for f in ('und', 'dir', 'sign', 'dsign')]
     return [dict(name='undirected-small-scope', entries=und), dict(name='directed-small-scope', entries=dr),
